@@ -981,7 +981,7 @@ namespace avel {
 
     [[nodiscard]]
     AVEL_FINL vec4x64f nearbyint(vec4x64f v) {
-        return vec4x64f{_mm256_round_pd(decay(v), _MM_FROUND_TO_NEAREST_INT |_MM_FROUND_NO_EXC)};
+        return vec4x64f{_mm256_round_pd(decay(v), _MM_FROUND_CUR_DIRECTION | _MM_FROUND_NO_EXC)};
     }
 
     [[nodiscard]]
